@@ -12,6 +12,8 @@ open Ldlm
 theorem fp_server_server_LockServer_Locks : Facts.fp_server_server_LockServer_Locks = "8fdbab2ce5539956" := rfl
 /-- server/server.go: LockServer.Unlock -/
 theorem fp_server_server_LockServer_Unlock : Facts.fp_server_server_LockServer_Unlock = "b03d29042086a906" := rfl
+/-- server/server.go: LockServer.Renew -/
+theorem fp_server_server_LockServer_Renew : Facts.fp_server_server_LockServer_Renew = "ec4eb8cf57e4c2a1" := rfl
 /-- server/server.go: LockServer.onTimeoutFunc -/
 theorem fp_server_server_LockServer_onTimeoutFunc : Facts.fp_server_server_LockServer_onTimeoutFunc = "ee575fb2d063557f" := rfl
 /-- server/server.go: LockServer.CreateSession -/
